@@ -397,7 +397,7 @@ def replay(ck, path):
 
 def main():
     ck = Check("C11", "other")
-    lean = ck.lean_stage(["VelaVerif.Props.C11", "VelaVerif.Props.C11Writer"])
+    lean = ck.lean_stage(["VelaVerif.Props.C11", "VelaVerif.Props.C11Writer", "VelaVerif.Props.C11Roundtrip"])
     common.setup_repo_path()
     pipeline.load_vela()
     if ck.replay_arg:
